@@ -4,7 +4,7 @@ import re
 
 from ..pycfg import CFG, walk_no_nested
 from ..pyflow import ReachingDefs
-from ..source import linear, guard_walk, AnalysisError, find_function, find_class, first_line, src, functions
+from ..source import truth, linear, guard_walk, AnalysisError, find_function, find_class, first_line, src, functions
 
 SM = "nemoguardrails/colang/v2_x/runtime/statemachine.py"
 EMIT = "_generate_action_event_from_actionable_element"
@@ -35,6 +35,7 @@ def run(ctx):
         raise AnalysisError("_resolve_action_conflicts not found", anchor=SM + "::_resolve_action_conflicts")
     cfg = CFG(fn)
     unit = fn.name
+    e_dead_heads_skipped_in_loop(ctx, fn)
 
     # the emission may be wrapped (a helper that calls the emitter once and reports success): calls of such a wrapper count as emissions
     EMITS = {EMIT} | {f.name for f in functions(t) if f is not fn and f.name != EMIT
@@ -221,17 +222,37 @@ def run(ctx):
                 return False
         return None
 
+    def _exempt_outcomes(test):
+        """truth values of a test that mean: this head needs no fate here - it IS the picked head, or its flow has been aborted meanwhile (while an earlier head of the
+        group was resolved) / the head is no longer active.  Evaluated with the three-valued `truth`, so the test may combine these with `and` / `or` in any nesting."""
+        outs = set()
+        same = {"%s == %s" % (ihv, pv): True}
+        v = truth(test, same)
+        if v is not None:
+            outs.add(v)
+        dead1 = {(lambda e: isinstance(e, ast.Call) and src(e.func) in ("is_active_flow", "is_listening_flow")): False}
+        v = truth(test, dead1)
+        if v is not None:
+            outs.add(v)
+        dead2 = {(lambda e: isinstance(e, ast.Compare) and len(e.ops) == 1 and isinstance(e.ops[0], ast.Eq) and src(e.left).endswith(".status") and "ACTIVE" in src(e.comparators[0])): False}
+        v = truth(test, dead2)
+        if v is not None:
+            outs.add(v)
+        return outs
+
     def _is_picked_path(p):
         for k, n in enumerate(p):
-            if n.kind == "test" and n.ast is not None:
-                e = _same_head_when(n.ast)
-                if e is None:
+            if n.kind == "test" and n.ast is not None and isinstance(n.ast, ast.expr):
+                ex = _exempt_outcomes(n.ast)
+                if not ex:
                     continue
                 outs = {lab: m for m, lab in n.succ}
                 nxt = p[k + 1] if k + 1 < len(p) else None
-                if nxt is not None:
-                    return outs.get(e) is nxt
-                return outs.get(e) is inode or outs.get(not e) is not inode
+                for e in ex:
+                    if nxt is not None and outs.get(e) is nxt:
+                        return True
+                    if nxt is None and (outs.get(e) is inode or outs.get(not e) is not inode):
+                        return True
         return False
 
     for p in ipaths:
@@ -350,6 +371,22 @@ def run(ctx):
 
 FLOWS = "nemoguardrails/colang/v2_x/runtime/flows.py"
 FRESH = {"new_uuid", "new_readable_uuid"}
+
+
+def e_dead_heads_skipped_in_loop(ctx, fn):
+    """The heads of a group are filtered for liveness before the group is resolved - but resolving the group aborts flows (a loser, and with it its children).  A head of a flow
+    that was aborted a moment ago is still in the list; treated as a co-winner it adds a share to the winner's action for a dead flow, and that action is never stopped when
+    its real owner ends (F128).  The loop over the competing heads tests liveness again for every head."""
+    inner = [l for l in ast.walk(fn) if isinstance(l, ast.For) and "ordered_heads" in src(l.iter) or (isinstance(l, ast.For) and "group" in src(l.iter) and any(
+        isinstance(c, ast.Call) and src(c.func) == "_abort_flow" for c in ast.walk(l)) and not any(isinstance(x, ast.For) and x is not l and "ordered" in src(x.iter) for x in ast.walk(l)))]
+    inner = [l for l in inner if any(isinstance(c, ast.Call) and src(c.func) == "_abort_flow" for c in ast.walk(l))]
+    ctx.floor("C05.e.live-in-loop", SM, "loop over the competing heads of a group", len(inner), 1)
+    for l in inner[:1]:
+        tests = [i for i in ast.walk(l) if isinstance(i, ast.If) and any(isinstance(c, ast.Call) and src(c.func) in ("is_active_flow", "is_listening_flow") for c in ast.walk(i.test))]
+        ctx.check("C05.e.live-in-loop", SM, fn.name, "liveness of each competing head is tested inside the loop", bool(tests),
+                  "a head whose flow was aborted while an earlier head of the group was resolved is skipped" if tests else
+                  "the competing heads are not re-tested inside the loop: a child of a losing flow that has just been aborted still co-wins and takes a share of the winner's action "
+                  "- the action is not stopped when its real owner ends", line=l.lineno)
 
 
 def d_score_chain(ctx):
